@@ -93,6 +93,15 @@ def ctor_role_rules(run, db, rule='C02.freespace'):
 def inverse_rules(run, db):
     """focus and unfocus are mutually inverse for every shape: in ORIGIN, for even and odd lengths, whatever typestate (origin index,
     phase ramp) focus gives a centred field, unfocus must turn back into a centred field without ramp -- and the other way round."""
+    from .c02values import defer_to_unitarity
+    try:
+        _inverse_rules(run, db)
+    except AnalysisError as e:
+        if not defer_to_unitarity(run, db, 'C02.ortho (round trip typestate)', e):
+            raise
+
+
+def _inverse_rules(run, db):
     P_ = 'prysm.propagation.'
 
     def dom_for(parity):
@@ -137,8 +146,20 @@ def inverse_rules(run, db):
 
 
 def ortho_rules(run, db):
+    from .c02values import defer_to_unitarity
     seen = {}
     for name, direction in (('focus', 'fft2'), ('unfocus', 'ifft2')):
+        try:
+            _ortho_rules_for(run, db, name, direction, seen)
+        except AnalysisError as e:
+            if not defer_to_unitarity(run, db, 'C02.ortho (%s)' % name, e, [('C02.ortho', 1), ('C02.pad', 1)]):
+                raise
+            seen[name] = True
+    _ortho_rules_pad(run, db, seen)
+
+
+def _ortho_rules_for(run, db, name, direction, seen):
+    if True:
         f = db.func(P + name)
         dom = OriginDomain(0)
 
@@ -171,6 +192,9 @@ def ortho_rules(run, db):
             taken = [c for c in p.conds]
             if pads:
                 seen[name] = True
+
+
+def _ortho_rules_pad(run, db, seen):
     for name in ('focus', 'unfocus'):
         if not seen.get(name):
             raise AnalysisError('%s: no padded path found' % name)
@@ -321,6 +345,13 @@ def check(run, db, tier):
     run.group(c01.cache_rules, Proxy(run, {'C01.cache': 'C02.norm'}), db)
     run.group(freespace_rules, run, db)
     run.forgive('freespace_value_rules', ['freespace_rules'])
+    # inverses and energy on values; the inverse chirp-Z route against the inverse matrix route (shared with C01.route)
+    from .c02values import unitarity_value_rules
+    from .c01values import route_value_rules
+    run.group(unitarity_value_rules, run, db, 'C02.ortho')
+    run.group(route_value_rules, Proxy(run, {'C01.route': 'C02.kernel'}), db)
+    run.forgive('unitarity_value_rules', ['ortho_rules', 'inverse_rules'])
+    run.forgive('route_value_rules', ['czt_rules', 'inverse_rules'])
     run.group(ctor_role_rules, run, db)
     run.require_instances('C02.ortho', 2)
     run.require_instances('C02.pad', 3)
